@@ -9,13 +9,31 @@ import (
 
 var serOpts = gopacket.SerializeOptions{FixLengths: true, ComputeChecksums: true}
 
+// usedBuffer returns a serialize buffer the way a connection's buffer looks after earlier packets: cleared, but with the
+// bytes of what was serialised before (here 0xA7 everywhere) still in its backing array.  gopacket does not zero the
+// memory PrependBytes / AppendBytes hand out, so a layer that does not write every byte it owns shows its omission here
+// (and on every connection, which builds all its packets in one buffer), but not in a fresh buffer.
+func usedBuffer() gopacket.SerializeBuffer {
+	buf := gopacket.NewSerializeBufferExpectedSize(700, 700)
+	pre, _ := buf.PrependBytes(700)
+	for i := range pre {
+		pre[i] = 0xA7
+	}
+	app, _ := buf.AppendBytes(700)
+	for i := range app {
+		app[i] = 0xA7
+	}
+	buf.Clear()
+	return buf
+}
+
 func serLayers(ls ...gopacket.SerializableLayer) (out string) {
 	defer func() {
 		if r := recover(); r != nil {
 			out = "fault"
 		}
 	}()
-	buf := gopacket.NewSerializeBuffer()
+	buf := usedBuffer()
 	if err := gopacket.SerializeLayers(buf, serOpts, ls...); err != nil {
 		return "err"
 	}
